@@ -150,26 +150,31 @@ def execLine (ws : List String) : String :=
     | _, _ => "bad-op"
   | _ => "bad-op"
 
-/-- number of `goto` / `goto *&&L` steps among the first `n` steps of the abstract machine (evidence only:
-    how many of the generated jumps are actually executed) -/
-def jumpCount (ω : Nat → Val) (fb : SStmt) : Nat → SStmt → Cont → SState → Nat → Nat
-  | 0, _, _, _, acc => acc
-  | n + 1, s, k, σ, acc =>
-    let acc := acc + (match s with | .goto_ _ => 1 | .gotoVal _ => 1 | _ => 0)
-    match Spec.Ctl.step ω fb s k σ with
-    | .next s' k' σ' => jumpCount ω fb n s' k' σ' acc
-    | _ => acc
+/-- `Spec.Ctl.run` (the iteration of `Spec.Ctl.step` that defines `execG`) with two additions that do not change
+    the answer: it counts the `goto` / `goto *&&L` steps taken (evidence: how many generated jumps are executed),
+    and it stops with `timeout` once the trace has `lim` events (the harness on the C side stops at an event budget
+    too; without the cut a non-terminating program costs time quadratic in the fuel, the trace being a list). -/
+def runLim (ω : Nat → Val) (fb : SStmt) (lim : Nat) : Nat → SStmt → Cont → SState → Nat → Res × Nat
+  | 0, _, _, σ, j => (.timeout σ, j)
+  | n + 1, s, k, σ, j =>
+    if n % 64 == 0 && σ.tr.length ≥ lim then (.timeout σ, j)
+    else
+      let j := j + (match s with | .goto_ _ => 1 | .gotoVal _ => 1 | _ => 0)
+      match Spec.Ctl.step ω fb s k σ with
+      | .next s' k' σ' => runLim ω fb lim n s' k' σ' j
+      | .fin o σ' => (.done o σ', j)
+      | .stuck => (.unsupported, j)
 
 /-- the small-step abstract machine for all statements (goto, computed goto, nested case labels):
-    `fuel vals sexpr` → `valid=<constraints hold> gotoval=<has computed goto> jumps=<gotos executed> <result>` -/
+    `fuel evlimit vals sexpr` → `valid=<constraints hold> gotoval=<has computed goto> jumps=<gotos executed> <result>` -/
 def execgLine (ws : List String) : String :=
   match ws with
-  | fuel :: vals :: rest =>
-    match fuel.toNat?, readS rest with
-    | some fuel, some s =>
-      s!"valid={validG s} gotoval={hasGotoVal s} jumps={jumpCount (oracleOf vals) s fuel s .stop ⟨0, []⟩ 0} " ++
-        showRes (execG (oracleOf vals) fuel s ⟨0, []⟩)
-    | _, _ => "bad-op"
+  | fuel :: lim :: vals :: rest =>
+    match fuel.toNat?, lim.toNat?, readS rest with
+    | some fuel, some lim, some s =>
+      let r := runLim (oracleOf vals) s lim fuel s .stop ⟨0, []⟩ 0
+      s!"valid={validG s} gotoval={hasGotoVal s} jumps={r.2} " ++ showRes r.1
+    | _, _, _ => "bad-op"
   | _ => "bad-op"
 
 /-- the model's code run on the model's machine: the trace up to the point where control
